@@ -30,6 +30,7 @@ type fault struct {
 	et      bool
 	hard    bool // the failing connection must be closed with an error; otherwise: no visible effect
 	fatal   bool // an error the loop does not survive by design (accept failing for good): the engine shuts down
+	drip    bool // epoll_ctl lives: connection 1 is answered with many small frames instead of one big one
 }
 
 func faultList(thorough bool, rng *vsup.Rng) []fault {
@@ -37,7 +38,7 @@ func faultList(thorough bool, rng *vsup.Rng) []fault {
 	add := func(sc, en string, hard bool, whens []int, modes []bool) {
 		for _, w := range whens {
 			for _, et := range modes {
-				out = append(out, fault{sc, en, w, et, hard, false})
+				out = append(out, fault{sc, en, w, et, hard, false, false})
 			}
 		}
 	}
@@ -156,7 +157,7 @@ func runFaultScenario(t *testing.T, rec *recorder, f fault, seed uint64, scratch
 	rec.emit("Reset", "cfg", fmt.Sprintf("fault %s:%s:when=%d et=%v", f.syscall, f.errno, f.when, f.et), "et", f.et, "loops", 1)
 	h := &vhandler{rec: rec, cfg: cfg, booted: make(chan struct{})}
 	dial := fmt.Sprintf("127.0.0.1:%d", freePort())
-	opts := []Option{WithNumEventLoop(1), WithReusePort(true), WithLockOSThread(true), WithReadBufferCap(cfg.readCap), WithWriteBufferCap(cfg.writeCap),
+	opts := []Option{WithNumEventLoop(1), WithReusePort(cfg.reuseport), WithLockOSThread(true), WithReadBufferCap(cfg.readCap), WithWriteBufferCap(cfg.writeCap),
 		WithLogger(nullLogger{}), WithEdgeTriggeredIO(f.et)}
 	if f.syscall == "epoll_ctl" {
 		// a small send buffer: big answers do leave a backlog (and the write interest gets registered)
@@ -165,7 +166,7 @@ func runFaultScenario(t *testing.T, rec *recorder, f fault, seed uint64, scratch
 	}
 	runErr := make(chan error, 1)
 	go func() {
-		err := Run(h, "tcp://"+dial, opts...)
+		err := Run(h, cfg.network+"://"+dial, opts...)
 		rec.emit("RunRet", "err", errClass(err))
 		runErr <- err
 	}()
@@ -177,7 +178,7 @@ func runFaultScenario(t *testing.T, rec *recorder, f fault, seed uint64, scratch
 	time.Sleep(20 * time.Millisecond)
 	// warm-up connection: tells us the loop's thread id (its OnOpen runs on the pinned loop thread)
 	atomic.StoreInt32(&h.wantTid, 1)
-	warm := &peerSpec{id: 50, seed: rng.Uint64(), network: "tcp", done: make(chan struct{}), total: 64, segs: []int{64}, shut: "fin",
+	warm := &peerSpec{id: 50, seed: rng.Uint64(), network: cfg.network, done: make(chan struct{}), total: 64, segs: []int{64}, shut: "fin",
 		peerRead: "normal", consume: "all", reply: "frames", openOut: -1, closeAt: -1, closeHow: "action"}
 	runPeer(rec, h, warm, dial, scratch, rep)
 	tid := int(atomic.LoadInt32(&h.loopTid))
@@ -220,6 +221,11 @@ func runFaultScenario(t *testing.T, rec *recorder, f fault, seed uint64, scratch
 			sp.total, sp.segs, sp.lockstep = 10, []int{10}, false
 			sp.shut, sp.peerRead, sp.consume, sp.reply = "fin", "stall", "all", "big"
 			sp.closeAt, sp.openOut, sp.budget = -1, -1, 1<<20
+			if f.drip {
+				// ... or with many small frames: the write that finds the socket full writes nothing at all (a pure
+				// EAGAIN with an empty outbound buffer), and the registration that follows it is the call to fail
+				sp.reply, sp.budget = "drip", 0
+			}
 		}
 		wg.Add(1)
 		go func() { defer wg.Done(); runPeer(rec, h, sp, dial, scratch, rep) }()
@@ -265,6 +271,10 @@ func runFaultScenario(t *testing.T, rec *recorder, f fault, seed uint64, scratch
 			}
 			rec.emit("FaultHit", "line", line, "fd", fd, "eventfd", rec.isEventfd(fd), "owes", owes)
 			hits = append(hits, line)
+			if dfd, ok := h.fdOf.Load(1); ok && f.syscall == "epoll_ctl" && f.drip && dfd.(int) == fd &&
+				strings.Contains(line, "EPOLL_CTL_MOD") && strings.Contains(line, "EPOLLOUT") {
+				hits = append(hits, "DRIP-ARM") // the registration of the write interest of the connection answered with small frames
+			}
 		}
 		_ = os.Remove(straceLog)
 	}
@@ -289,7 +299,7 @@ func runFaultScenario(t *testing.T, rec *recorder, f fault, seed uint64, scratch
 	// fresh connections reuse their descriptor numbers: they must be no-ops
 	staleRequests(rec, h, cfg, rng, dial, scratch, rep)
 	// the engine must still serve a fresh connection
-	probe := &peerSpec{id: 60, seed: rng.Uint64(), network: "tcp", done: make(chan struct{}), total: 100, segs: []int{100}, shut: "fin",
+	probe := &peerSpec{id: 60, seed: rng.Uint64(), network: cfg.network, done: make(chan struct{}), total: 100, segs: []int{100}, shut: "fin",
 		peerRead: "normal", consume: "all", reply: "frames", openOut: -1, closeAt: -1, closeHow: "action"}
 	runPeer(rec, h, probe, dial, scratch, rep)
 	deadline := time.Now().Add(3 * time.Second)
@@ -362,7 +372,7 @@ func TestVerifFaults(t *testing.T) {
 	for _, et := range []bool{false, true} {
 		want := map[string]bool{"c.write/EPIPE": true, "c.openwrite/EPIPE": true}
 		for k := 1; k <= 8 && len(want) > 0; k++ {
-			if ok, _ := runFaultScenario(t, rec, fault{"write", "EPIPE", k, et, true, false}, rng.Uint64(), scratch, rep); ok {
+			if ok, _ := runFaultScenario(t, rec, fault{"write", "EPIPE", k, et, true, false, false}, rng.Uint64(), scratch, rep); ok {
 				armed++
 			}
 			for site := range want {
@@ -384,14 +394,15 @@ func TestVerifFaults(t *testing.T) {
 			// have been failed
 			want["EPOLL_CTL_MOD, drop"] = true
 			want["EPOLL_CTL_MOD, arm"] = true
+			want["EPOLL_CTL_MOD, arm/drip"] = true // ... one of them in a life that answers with many small frames
 			armLeft = 2
 		}
 		maxK := 16
-		if vsup.Thorough() {
-			maxK = 16
-		}
 		for k := 2; k <= maxK && len(want) > 0; k++ {
-			ok, hits := runFaultScenario(t, rec, fault{"epoll_ctl", "ENOMEM", k, et, true, false}, rng.Uint64(), scratch, rep)
+			// (small frames in every other life: whether the write that finds the socket full writes nothing at all or a
+			// part of a frame is the kernel's choice, so which kind of registration gets failed is not forced)
+			drip := k%2 == 1
+			ok, hits := runFaultScenario(t, rec, fault{"epoll_ctl", "ENOMEM", k, et, true, false, drip}, rng.Uint64(), scratch, rep)
 			if ok {
 				armed++
 			}
@@ -403,6 +414,10 @@ func TestVerifFaults(t *testing.T) {
 							if armLeft--; armLeft <= 0 {
 								delete(want, op)
 							}
+						}
+					case "EPOLL_CTL_MOD, arm/drip":
+						if line == "DRIP-ARM" {
+							delete(want, op)
 						}
 					case "EPOLL_CTL_MOD, drop":
 						if strings.Contains(line, "EPOLL_CTL_MOD") && !strings.Contains(line, "EPOLLOUT") {
